@@ -42,6 +42,11 @@ def gen_cases(tier, seed):
             rwx = r.choice([0o644, 0o755, 0o600, 0o777, 0o000, 0o444, 0o751, 0o070, 0o007, 0o666, r.randrange(0o1000)])
             e = {"p": "src/f%02d" % j, "k": "f", "size": r.choice([0, 1, 100, 5000, 70000, 200000]), "seed": r.randrange(1, 1 << 30), "segs": None,
                  "mode": special | rwx, "mtime_ns": r.choice(MTIMES) + r.randrange(1000), "atime_ns": r.choice(MTIMES)}
+            if r.random() < 0.12:
+                # a sparse file with several data segments: the block driver queues each segment on its own, and the metadata
+                # belongs after the last block of the last of them
+                nseg = r.choice([2, 3, 6, 16])
+                e.update({"size": nseg * (1 << 20) + r.choice([0, 5]), "segs": [[k * (1 << 20) + r.choice([0, 4096, 4099]), r.choice([4096, 40000, 200000])] for k in range(nseg)], "sync": True})
             if r.random() < 0.6:
                 e["xattrs"] = {"user.a%d" % k: r.choice(["v%d" % r.randrange(10000), "", "\x00\x01\xff bin", "x" * 300]) for k in range(r.randint(1, 4))}
             if e.get("xattrs") and r.random() < 0.3:
